@@ -794,6 +794,40 @@ def _r6_identity(ctx, repo, A):
     else:
         ctx.ok("C01.R6", "is_running-sticky",
                sample={"early_return_false_on": "self._gone or self._pid_reused"})
+    # every way is_running() can answer without comparing identities must make
+    # the guard raise by itself
+    cmp_nodes = [n for n in cfg.nodes if n.kind == "stmt" and any(
+        dotted(c.func) in ("Process",) for c in calls_in(n.stmt))]
+    flags = set()
+    for n in cfg.nodes:
+        if n.kind != "return":
+            continue
+        if cfg.path_exists(cfg.entry, n, avoid=set(cmp_nodes)) or n in cmp_nodes:
+            for e, pol, _ in cfg.guards(n):
+                if pol is True:
+                    vals = e.values if isinstance(e, ast.BoolOp) and isinstance(e.op, ast.Or) \
+                        else [e]
+                    for v in vals:
+                        if dotted(v) and dotted(v).startswith("self."):
+                            flags.add(dotted(v))
+    gcfg = A.cfg(g)
+    for f in sorted(flags):
+        dead = set()
+        for b in gcfg.nodes:
+            if b.kind == "branch" and b.polarity in (True, False):
+                v = _eval3(b.expr, {f: True})
+                if v is not None and v != b.polarity:
+                    dead.add(b)
+        leaks = gcfg.exit in gcfg.reachable(gcfg.entry, avoid=dead)
+        if leaks:
+            ctx.fail("C01.R6", f"guard-covers:{f}", g.file, g.node.lineno, g.qual,
+                     f"is_running() answers early when {f} is set, without comparing "
+                     f"identities, and _raise_if_pid_reused() then returns normally: "
+                     f"once {f} is set a signal/setter reaches whoever owns the PID "
+                     f"(e.g. after the PID was recycled)")
+        else:
+            ctx.ok("C01.R6", f"guard-covers:{f}",
+                   sample=f"{f} set => _raise_if_pid_reused() raises on every path")
     # __eq__
     eq = repo.func("psutil", "Process.__eq__")
     last = eq.node.body[-1]
@@ -805,6 +839,26 @@ def _r6_identity(ctx, repo, A):
     else:
         ctx.fail("C01.R6", "__eq__-ident", eq.file, eq.node.lineno, eq.qual,
                  "__eq__ no longer compares self._ident with other._ident")
+
+
+def _eval3(e, env):
+    """Three-valued evaluation of a guard test under known attribute values."""
+    d = dotted(e)
+    if d in env:
+        return env[d]
+    if isinstance(e, ast.UnaryOp) and isinstance(e.op, ast.Not):
+        v = _eval3(e.operand, env)
+        return None if v is None else not v
+    if isinstance(e, ast.BoolOp):
+        vals = [_eval3(v, env) for v in e.values]
+        if isinstance(e.op, ast.Or):
+            if any(v is True for v in vals):
+                return True
+            return False if all(v is False for v in vals) else None
+        if any(v is False for v in vals):
+            return False
+        return True if all(v is True for v in vals) else None
+    return None
 
 
 def _guard_test_ok(test):
